@@ -159,7 +159,17 @@ Section Bytes.
   Definition refcounts_safe : bool :=
     let rl := ref_list in forallb (fun c => count c rl <=? stored c) rl.
 
-  Definition validb : bool := hdr_supported h && tables_ok true && refcounts_exact.
+  (* clusters referenced by an entry that carries COPIED ("refcount is exactly one"): L2 tables through L1
+     entries, standard data clusters through L2 entries *)
+  Definition copied_refs : list N :=
+    map (fun i => s_l1_offset (l1_entry i) / cs) (filter (fun i => s_l1_copied (l1_entry i)) l1_nonzero)
+    ++ flat_map (fun i => flat_map (fun j =>
+         let v := l2_entry (s_l1_offset (l1_entry i)) j in
+         if negb (s_l2_compressed v) && s_l2_copied v && negb (s_l2_offset v =? 0) then [s_l2_offset v / cs] else [])
+         (nrange l2e)) l1_nonzero.
+  Definition copied_single : bool := forallb (fun c => stored c =? 1) copied_refs.
+
+  Definition validb : bool := hdr_supported h && tables_ok true && refcounts_exact && copied_single.
   Definition safeb : bool := hdr_supported h && tables_ok false && refcounts_safe.
 
   (* leak list, for diagnostics and for C20's check() verdict *)
